@@ -41,6 +41,7 @@ pub enum Event {
     WritePending,
     Flush,
     FlushPending,
+    FlushErr(ErrorKind),
     Read { room: usize, delivered: usize },
     ReadErr(ErrorKind),
     ReadEof,
@@ -51,6 +52,11 @@ pub struct ScriptSink {
     pub script: Vec<WOut>,
     pub tail: WOut,
     pub flush_script: Vec<bool>, // true = Pending first
+    /// outcome of the k-th flush call that is not answered with Pending: Some(kind) = the flush fails
+    pub flush_errs: Vec<Option<ErrorKind>>,
+    /// outcome of the flush calls behind `flush_errs`
+    pub flush_err_tail: Option<ErrorKind>,
+    pub epos: usize,
     pub pos: usize,
     pub fpos: usize,
     pub data: Vec<u8>,
@@ -65,6 +71,9 @@ impl ScriptSink {
             script,
             tail,
             flush_script: vec![],
+            flush_errs: vec![],
+            flush_err_tail: None,
+            epos: 0,
             pos: 0,
             fpos: 0,
             data: vec![],
@@ -145,10 +154,19 @@ impl AsyncWrite for ScriptSink {
         if pend {
             self.log.push(Event::FlushPending);
             cx.waker().wake_by_ref();
-            Poll::Pending
-        } else {
-            self.log.push(Event::Flush);
-            Poll::Ready(Ok(()))
+            return Poll::Pending;
+        }
+        let fail = self.flush_errs.get(self.epos).copied().unwrap_or(self.flush_err_tail);
+        self.epos += 1;
+        match fail {
+            Some(k) => {
+                self.log.push(Event::FlushErr(k));
+                Poll::Ready(Err(k.into()))
+            }
+            None => {
+                self.log.push(Event::Flush);
+                Poll::Ready(Ok(()))
+            }
         }
     }
     fn poll_close(self: Pin<&mut Self>, _cx: &mut Context<'_>) -> Poll<io::Result<()>> {
